@@ -823,7 +823,7 @@ def run(ctx):
         ctx.broken_obligation('pyx-untranslatable', {'error': repr(e)})
         ctx.stat('text', 'untranslatable', 1)
     # ---------------- masks ----------------
-    n = 220 if quick else 900
+    n = 220 if quick else 750
     coq_cases, descr = [], []
     text_differs = 0
 
